@@ -1,11 +1,23 @@
 use std::hash::Hash;
 use std::sync::Arc;
+#[cfg(not(cached_verif))]
 use std::sync::atomic::{AtomicBool, Ordering};
+#[cfg(cached_verif)]
+use crate::verif_rt::sync::atomic::{AtomicBool, Ordering};
+#[cfg(not(cached_verif))]
 use std::thread;
+#[cfg(cached_verif)]
+use crate::verif_rt::sync::thread;
 
+#[cfg(not(cached_verif))]
 use crossbeam_channel::{Receiver, select};
+#[cfg(cached_verif)]
+use crate::verif_rt::sync::crossbeam_channel::{self, Receiver, select};
 use log::{debug, info, warn};
+#[cfg(not(cached_verif))]
 use parking_lot::RwLock;
+#[cfg(cached_verif)]
+use crate::verif_rt::sync::parking_lot::RwLock;
 
 use crate::cache::buffer_event::{BufferConsumer, BufferEvent};
 use crate::cache::command::{CommandStatus, RejectionReason};
